@@ -44,6 +44,10 @@ var schemas = []string{
 	"input: { _dependencies: [], name: string, n: int }\ns1: { _dependencies: [\"s2\"], result: [...{k: int}] }\ns2: { _dependencies: [\"s1\"], result: string }\n",
 }
 
+// schemaSuffix re-spells every schema (a trailing comment) so that a phase meets cold caches and
+// cue values nobody has evaluated yet; set before each phase, never during one
+var schemaSuffix = ""
+
 var vqueries = []string{`$.s1.result`, `$.input.name`, `$.input.name.Equal($.s1.result)`, `$.s2.result`, `$.input.zz`, `$.s1.result.First().k`}
 
 // docs builds the documents; respell > 0 writes the regular expression `p` in a different but
@@ -78,7 +82,7 @@ func run(c call, ops []mpath.Operation, ds []any) string {
 		b, _ := json.Marshal(res)
 		return "ok " + string(b)
 	case "validate":
-		tc, err := mpath.CueValidate(c.q, schemas[c.schema], c.cur)
+		tc, err := mpath.CueValidate(c.q, schemas[c.schema]+schemaSuffix, c.cur)
 		out := ""
 		if err != nil {
 			out = "err " + err.Error()
@@ -128,7 +132,29 @@ func main() {
 				plans[t] = append(plans[t], c)
 			}
 		}
-		// sequential reference (fresh operations so that shared ones are first used concurrently)
+		// the concurrent phase comes FIRST, on cold state (schemas spelled as never before, operations
+		// never evaluated); the sequential reference is computed afterwards on another spelling
+		schemaSuffix = fmt.Sprintf("\n// concurrent phase %d-%d\n", *seed, rounds)
+		got := make([][]string, *g)
+		var wg sync.WaitGroup
+		mismatches := 0
+		for t := range plans {
+			wg.Add(1)
+			go func(t int) {
+				defer wg.Done()
+				r := rand.New(rand.NewSource(*seed*1000 + int64(t)))
+				ds := docs(1 + t + rounds*(*g)) // same content, regular expressions spelled as no one did before
+				for _, c := range plans[t] {
+					if r.Intn(3) == 0 {
+						runtime.Gosched()
+					}
+					got[t] = append(got[t], run(c, ops, ds))
+				}
+			}(t)
+		}
+		wg.Wait()
+		schemaSuffix = fmt.Sprintf("\n// reference phase %d-%d\n", *seed, rounds)
+		// sequential reference, computed alone
 		refOps := make([]mpath.Operation, len(queries))
 		for i, q := range queries {
 			refOps[i], _ = mpath.ParseString(q)
@@ -143,37 +169,21 @@ func main() {
 				want[t] = append(want[t], run(cc, refOps, ds))
 			}
 		}
-		var wg sync.WaitGroup
-		var mu sync.Mutex
-		mismatches := 0
 		for t := range plans {
-			wg.Add(1)
-			go func(t int) {
-				defer wg.Done()
-				r := rand.New(rand.NewSource(*seed*1000 + int64(t)))
-				ds := docs(1 + t + rounds*(*g)) // same content, regular expressions spelled as no one did before
-				for i, c := range plans[t] {
-					if r.Intn(3) == 0 {
-						runtime.Gosched()
-					}
-					got := run(c, ops, ds)
-					w := want[t][i]
-					if c.kind == "validate" {
-						// the reference query carried one more trailing space: compare modulo the echoed query text
-						got, w = stripQueryEcho(got), stripQueryEcho(w)
-					}
-					if got != w {
-						mu.Lock()
-						mismatches++
-						if mismatches <= 3 {
-							fmt.Printf("MISMATCH %s %q: concurrent %.200s | alone %.200s\n", c.kind, c.q, got, w)
-						}
-						mu.Unlock()
+			for i, c := range plans[t] {
+				g1, w := got[t][i], want[t][i]
+				if c.kind == "validate" {
+					// the reference query carried one more trailing space: compare modulo the echoed query text
+					g1, w = stripQueryEcho(g1), stripQueryEcho(w)
+				}
+				if g1 != w {
+					mismatches++
+					if mismatches <= 3 {
+						fmt.Printf("MISMATCH %s %q: concurrent %.200s | alone %.200s\n", c.kind, c.q, g1, w)
 					}
 				}
-			}(t)
+			}
 		}
-		wg.Wait()
 		total += *g * *n
 		rounds++
 		if mismatches > 0 {
